@@ -282,6 +282,53 @@ def run(ctx):
                '(%d reaching conditions)' % len(cds), where(body, A['line']))
     if not bad:
         ctx.ok('C12.R3', 'a candidate is stored only if none was found before', where(body, A['line']))
+    # R4c: a source specifier that was re-read as the destination is not also applied as a source filter
+    dvar = comps.get('dest')
+    ovars = {}
+    for opt in ('rank', 'file'):
+        x = comps.get(opt)
+        m = match(('field', ('variant', V('o'), 'Some'), '0'), x) if x is not None else None
+        if m is not None:
+            ovars[opt] = m['o']
+    if dvar is not None and len(ovars) == 2:
+        def dnames(e):
+            # expand only the variables that carry the three components (not the text cursor etc.)
+            roots = {x[3] for x in (dvar, ovars['rank'], ovars['file']) if x[0] == 'var'}
+            seen = 0
+
+            def rec(x, d):
+                if not isinstance(x, tuple) or not x:
+                    return x
+                if x[0] == 'var' and x in VAR_DEFS and x[3] in roots and d > 0:
+                    return rec(VAR_DEFS[x], d - 1)
+                if x[0] == 'ite':
+                    return ('ite', x[1], tuple((v, rec(y, d)) for v, y in x[2]))
+                return x
+            return rec(e, 6)
+        joint = ('tuple', (dnames(dvar), dnames(ovars['rank']), dnames(ovars['file'])))
+        jp = paths_deep(joint, limit=20000)
+        none = ('agg', 'core::option::Option', 'None', ())
+        stale = set()
+        nfb = 0
+        for conds, leaf in jp:
+            d, r_, f_ = leaf[1]
+            fallback = any(y[0] == 'call' and y[1] == 'square::Square::make_square' for y in walk(d))
+            if fallback:
+                nfb += 1
+                if norm(r_) != none:
+                    stale.add('rank')
+                if norm(f_) != none:
+                    stale.add('file')
+        if len(jp) >= 20000:
+            ctx.note('R4c: path enumeration truncated')
+        elif nfb == 0:
+            ctx.note('R4c: no fallback destination (source specifier re-read as destination) found')
+        elif stale:
+            ctx.violation('C12.R4', KEY + ':stale-source:' + ','.join(sorted(stale)), 'when the text has no separate destination the source specifier is '
+                          're-read as the destination, but the source %s stays set on some path and is still applied as a filter: such a move can never '
+                          'match (e.g. a promotion push written with a check mark)' % ' and '.join(sorted(stale)), where(body, A['line']))
+        else:
+            ctx.ok('C12.R4', 'a source specifier re-read as the destination is cleared (rank and file None) on all %d fallback paths' % nfb, where(body, A['line']))
     # letter tables of the parsed components
     want_piece = {'N': 'Knight', 'B': 'Bishop', 'Q': 'Queen', 'R': 'Rook', 'K': 'King'}
     want_file = {c: c.upper() for c in 'abcdefgh'}
